@@ -533,6 +533,41 @@ def run(ck: Check):
             except (TypeError, ValueError):
                 continue
             cases.append((spec.name, p, res, expr))
+    # the same domains through the PUBLIC SETTERS of an existing configuration object (built with the defaults)
+    ck.rule("setters: every grid value of every scalar parameter assigned to a default-built configuration object; accepted <-> the resulting combination is inside the documented domain (ordering constraints included)")
+    for spec in specs():
+        try:
+            base = spec.build(dict(spec.defaults))
+        except Exception:  # noqa: BLE001
+            continue
+        for k, vals in spec.grid.items():
+            if not hasattr(base, k) or isinstance(spec.defaults.get(k), str):
+                continue
+            for v in vals:
+                p = dict(spec.defaults, **{k: v})
+                try:
+                    doc = bool(spec.documented(p))
+                except TypeError:
+                    doc = False
+                obj = spec.build(dict(spec.defaults))
+                try:
+                    setattr(obj, k, v)
+                    res = "ok"
+                except Exception as e:  # noqa: BLE001
+                    res = type(e).__name__
+                ck.case(dict(cls=spec.name, param=k, value=repr(v), outcome=res, kind="setter"), nontrivial=res != "ok", key=repr(("setter", spec.name, k, repr(v))))
+                ck.count("setter_assignments")
+                detail = dict(cls=spec.name, param=k, value=repr(v), defaults={a: repr(b_) for a, b_ in spec.defaults.items()}, outcome=res)
+                if res == "ok" and not doc:
+                    if kind(v) == "nan":
+                        sig = dict(clause="accepts-outside-domain", cls=spec.name, value="nan", param=k)
+                    else:
+                        sig = dict(clause="setter-accepts-outside-domain", cls=spec.name, param=k)
+                    ck.violation(sig, dict(what="assigning the value through the public setter of an existing configuration is accepted although the resulting configuration is outside the documented domain", **detail))
+                elif res != "ok" and doc:
+                    ck.violation(dict(clause="setter-rejects-inside-domain", cls=spec.name, param=k), dict(what="the setter rejects a value the constructor's documented domain contains", **detail))
+                elif res != "ok" and res not in OKERR:
+                    ck.violation(dict(clause="error-type", cls=spec.name, error=res, via="setter"), dict(what="setter rejected with an exception that is neither ValueError/TypeError nor the dedicated error", **detail))
     # long multi-regime runs (several detections in a row, no reset): ADWIN with one or two buckets per row (rows
     # empty out and are dropped in cascades), and every other detector at its defaults and at a small boundary config
     long_cfgs = [("ADWIN", dict(clock=1, delta=0.002, m=1, min_window_size=2, min_num_instances=3)),
